@@ -392,3 +392,78 @@ func resolveFreeVar(v ssa.Value, fn, outer *ssa.Function) ssa.Value {
 	})
 	return out
 }
+
+// sortsWholeBefore: the function sorts a slice x with
+// sort.Slice(x, func(i,j) bool { return bytes.Compare(x[i][:], x[j][:]) < 0 })
+// and x is what it subsequently returns or stores.
+func sortsWholeBefore(p *packages.Package, fd *ast.FuncDecl) bool {
+	found := false
+	ast.Inspect(fd.Body, func(n ast.Node) bool {
+		call, ok := n.(*ast.CallExpr)
+		if !ok {
+			return true
+		}
+		name, _ := calleeName(p.TypesInfo, call)
+		if name != "sort.Slice" && name != "sort.SliceStable" || len(call.Args) != 2 {
+			return true
+		}
+		x := types.ExprString(call.Args[0])
+		fl, ok := call.Args[1].(*ast.FuncLit)
+		if !ok || len(fl.Body.List) != 1 {
+			return true
+		}
+		r, ok := fl.Body.List[0].(*ast.ReturnStmt)
+		if !ok || len(r.Results) != 1 {
+			return true
+		}
+		var ps []string
+		for _, f := range fl.Type.Params.List {
+			for _, nm := range f.Names {
+				ps = append(ps, nm.Name)
+			}
+		}
+		if len(ps) != 2 {
+			return true
+		}
+		want := fmt.Sprintf("bytes.Compare(%s[%s][:], %s[%s][:]) < 0", x, ps[0], x, ps[1])
+		if types.ExprString(r.Results[0]) == want {
+			// x must be used afterwards only as a return value / setter argument: find a later return or call mentioning x
+			later := false
+			ast.Inspect(fd.Body, func(m ast.Node) bool {
+				switch y := m.(type) {
+				case *ast.ReturnStmt:
+					if y.Pos() > call.End() {
+						for _, res := range y.Results {
+							if types.ExprString(res) == x {
+								later = true
+							}
+						}
+					}
+				case *ast.CallExpr:
+					if y.Pos() > call.End() {
+						for _, a := range y.Args {
+							if types.ExprString(a) == x {
+								later = true
+							}
+						}
+					}
+				}
+				return true
+			})
+			// and no append to x after the sort
+			ast.Inspect(fd.Body, func(m ast.Node) bool {
+				if as, ok := m.(*ast.AssignStmt); ok && as.Pos() > call.End() {
+					for _, l := range as.Lhs {
+						if types.ExprString(l) == x {
+							later = false
+						}
+					}
+				}
+				return true
+			})
+			found = later
+		}
+		return true
+	})
+	return found
+}
